@@ -333,7 +333,24 @@ let rec predict_inner (c : string) (obs : string) : string * string * bool =
         let neg_unsigned = (typ = "u8" || typ = "u64") && single && not unres &&
           String.length value > 1 && value.[0] = '-' && String.for_all (fun ch -> ch >= '0' && ch <= '9') (String.sub value 1 (String.length value - 1))
           && List.for_all (fun (t, lit, _) -> t || lit = "") ps in
-        let p = if unres then "err" else if typ = "str" then "ok " ^ hexs text else if neg_unsigned then "err" else obs in
+        let is_dec (x : string) =
+          let b = if String.length x > 0 && x.[0] = '-' then String.sub x 1 (String.length x - 1) else x in
+          String.length b > 0 && String.for_all (fun ch -> ch >= '0' && ch <= '9') b && (b = "0" || b.[0] <> '0') in
+        let int_field = (match typ with
+          | "int" | "dur" -> Some (false, 64) | "i8" -> Some (false, 8) | "u8" -> Some (true, 8) | "u64" -> Some (true, 64) | _ -> None) in
+        let p =
+          if unres then "err"
+          else if typ = "str" then "ok " ^ hexs text
+          else (match int_field with
+            | Some (uns, bits) ->
+                (* the cast applies only to a value that is exactly one placeholder; its text must be a number of
+                   the field's range (model cast_int); anything else reaches the decoder as a string: an error *)
+                if single && is_dec text then
+                  (match cast_int uns (z_of_int bits) (z_of_string text) with
+                   | Some z -> "ok " ^ hexs (string_of_z z)
+                   | None -> "err")
+                else if ntok >= 1 || typ <> "dur" then "err" else obs
+            | None -> if neg_unsigned then "err" else obs) in
         let v =
           if bad_status (status_of obs) then "BAD:" ^ site_of c ^ " outcome " ^ status_of obs
           else if unres && st <> "err" then "BAD:" ^ site_of c ^ " unresolved-placeholder-not-rejected outcome " ^ st
